@@ -260,15 +260,15 @@ class DataArray(Entity, DataSet):
 
     @polynom_coefficients.setter
     def polynom_coefficients(self, coeff):
+        if coeff is not None and len(coeff) != 0 and np.ndim(coeff) != 1:
+            # a nested sequence would be stored as a 2-D dataset when no
+            # coefficients exist yet and make every later read fail
+            raise ValueError("polynom_coefficients must be a flat "
+                             "sequence of numbers")
         if coeff is None or len(coeff) == 0:
             if self._h5group.has_data("polynom_coefficients"):
                 del self._h5group["polynom_coefficients"]
         else:
-            if np.ndim(coeff) != 1:
-                # a nested sequence would be stored as a 2-D dataset when no
-                # coefficients exist yet and make every later read fail
-                raise ValueError("polynom_coefficients must be a flat "
-                                 "sequence of numbers")
             dtype = DataType.Double
             self._h5group.write_data("polynom_coefficients", coeff, dtype)
         if self.file.auto_update_timestamps:
